@@ -50,6 +50,9 @@ def bnRpx2Hand (_f _n1 _n2 _lx ly : Nat) : Nat := ly
 def outRowsHand (_npx1 npx2 : Nat) : Nat := npx2
 def outColsHand (npx1 _npx2 : Nat) : Nat := npx1
 def bnDeletedHand (_ : Nat) : Nat := 31
+/-- `load_file_or_hdu`: an HDUList (kind 0) is used as it is, anything else (a str, a pathlib.Path, another
+    os.PathLike) is a file name and is opened -/
+def loadActionHand (kind : Nat) : Nat := if kind = 0 then 0 else 1
 
 /-! ### data -/
 
